@@ -38,6 +38,19 @@ WATCHDOG_S = int(os.environ.get('VERIF_WATCHDOG', '10'))
 _armed = [False]
 
 
+class _Sink:
+    "where the console dots of a count go"
+
+    def write(self, s):
+        return len(s)
+
+    def flush(self):
+        pass
+
+
+_SINK = _Sink()
+
+
 def _on_alarm(signum, frame):
     # the timer repeats (see run()): one 10^11-ballot Warren count of the thorough tier ran for 100 minutes with the
     # handler installed and no alarm pending - a single raise can get lost, so it is raised again every second until
@@ -171,7 +184,12 @@ def run(case, snap=False, renders=False, iter_budget=12, text=None, bound=True, 
     rational = E.V.name == 'rational'
 
     counter = [0]
-    prog = budget_prog(E, counter, iter_budget)
+    budget = budget_prog(E, counter, iter_budget)
+    console = E.prog            # droop's own progress output stays part of the count (its dots go to a sink)
+
+    def prog(msg):
+        budget(msg)
+        console(msg)
 
     def logAction(action, msg):
         orig_log(action, msg)
@@ -191,11 +209,13 @@ def run(case, snap=False, renders=False, iter_budget=12, text=None, bound=True, 
         old_handler = signal.signal(signal.SIGALRM, _on_alarm)
         _armed[0] = True
         signal.setitimer(signal.ITIMER_REAL, WATCHDOG_S, 1.0)
+    stdout, sys.stdout = sys.stdout, _SINK
     try:
         try:
             E.count()
             o.stage = 'done'
         finally:
+            sys.stdout = stdout
             if use_alarm:
                 _armed[0] = False
                 signal.setitimer(signal.ITIMER_REAL, 0)
